@@ -26,7 +26,7 @@ LEVEL = "exploration"
 RULE = (
     "(i) exhaustive structural patterns per variable {bound kind none/lower/upper/both} x {position lower/interior/upper} x {gradient sign -,0,+} "
     "for n<=2 (quick) / n<=3 (thorough), each with 3 numeric realisations x memory {0,1,3 pairs}; (ii) Hypothesis cases n=1..10, 0..maxcor pairs from an SPD matrix, "
-    "forced breakpoint ties, gradient scale 1e-3..1e3, optionally some 'inert' variables (zero gradient component and zero rows in every pair, i.e. variables the objective ignores); (iii) inputs intercepted in real convex box runs. "
+    "forced breakpoint ties, gradient scale 1e-3..1e3, a third of the cases with 1-2 further calls on the same matrices object at other points, optionally some 'inert' variables (zero gradient component and zero rows in every pair, i.e. variables the objective ignores); (iii) inputs intercepted in real box runs (convex and non-convex families, maxls down to 1, optionally a large user eps_SY so that pairs are rejected and the same matrices object is used again at the next iterate). "
     "non-trivial = some variable sits on a bound with the gradient pushing outward and its index differs from its rank in the breakpoint order, "
     "or >=2 breakpoints are crossed with >=1 pair in memory; distinct = distinct input hash"
 )
@@ -50,6 +50,21 @@ def build_mats(n, S, Y, maxcor):
         gk = gk + np.asarray(y, dtype=float)
         mats = update_lbfgs_matrices(xk.copy(), gk.copy(), X, G, maxcor, mats, False)
     return mats, len(X) - 1
+
+
+MATS_FIELDS = ("S", "Y", "D", "L", "W", "theta")
+
+
+def mats_snapshot(mats):
+    d = {k: np.array(getattr(mats, k), dtype=float, copy=True) for k in MATS_FIELDS if hasattr(mats, k)}
+    f = getattr(mats, "invMfactors", None)
+    if f is not None:
+        d["invM0"], d["invM1"] = np.array(f[0], copy=True), np.array(f[1], copy=True)
+    return d
+
+
+def mats_equal(a, b):
+    return a.keys() == b.keys() and all(a[k].shape == b[k].shape and np.array_equal(a[k], b[k]) for k in a)
 
 
 def check_gcp(x, g, lb, ub, mats, xc, c, stats=None, tag="syn"):
@@ -140,6 +155,22 @@ def run_case(spec, stats=None):
     xc, c = get_cauchy_point(x, g, lb, ub, mats, spec.get("iter", 1), -1, None)
     require(np.array_equal(x, x_in) and np.array_equal(g, g_in), "inputs-untouched", "x or g modified in place")
     tref, dev = check_gcp(x, g, lb, ub, mats, np.asarray(xc, dtype=float), c, stats)
+    snap = mats_snapshot(mats)
+    fresh, _ = build_mats(n, spec["S"], spec["Y"], spec["maxcor"])
+    require(mats_equal(snap, mats_snapshot(fresh)), "model-untouched", "the matrices object handed to the Cauchy search was modified by the call")
+    for k, alt in enumerate(spec.get("again", [])):
+        x2 = np.clip(np.array(alt["x"], dtype=float), lb, ub)
+        g2 = np.array(alt["g"], dtype=float)
+        if float(np.max(np.abs(np.clip(x2 - g2, lb, ub) - x2))) == 0.0:
+            continue
+        xc2, c2 = get_cauchy_point(x2, g2, lb, ub, mats, spec.get("iter", 1), -1, None)
+        try:
+            check_gcp(x2, g2, lb, ub, fresh, np.asarray(xc2, dtype=float), c2, stats, tag=f"call #{k + 2} on the same matrices object")
+        except Discard:
+            continue
+        require(mats_equal(snap, mats_snapshot(mats)), "model-untouched", f"the matrices object was modified by call #{k + 2}")
+        if stats is not None:
+            stats.bump("repeated-calls-on-the-same-matrices-object")
     if stats is not None:
         tb = breakpoints(x, g, lb, ub)
         nt, outward, crossed = nontrivial(x, g, lb, ub, tb, tref, npairs)
@@ -230,6 +261,29 @@ def case(draw):
                 if np.isfinite(dist) and dist > 0 and draw(st.booleans()):
                     g[j] = float(np.sign(g[j]) * dist / tb[i])
     out = {"n": n, "maxcor": maxcor, "S": S, "Y": Y, "x": x, "g": g, "lb": lb, "ub": ub, "iter": draw(st.sampled_from([0, 1, 5])), "src": "hyp", "inert": list(inert)}
+    # the routine called again with the *same* matrices object at another point of the same box (what the solver does when
+    # the newest pair is rejected): the answer must depend on the arguments only, and the matrices must come back untouched
+    again = []
+    if len(S) >= 1 and draw(st.integers(0, 2)) == 0:
+        for _ in range(draw(st.integers(1, 2))):
+            x2, g2 = [], []
+            for i in range(n):
+                l, u = lb[i], ub[i]
+                pos = draw(st.sampled_from(["same", "lower", "upper", "interior"]))
+                fr = draw(grid(0.05, 0.95, 18))
+                if pos == "lower" and l is not None:
+                    xi = l
+                elif pos == "upper" and u is not None:
+                    xi = u
+                elif pos == "interior" and l is not None and u is not None:
+                    xi = min(max(l + fr * (u - l), l), u)
+                else:
+                    xi = x[i]
+                gi = 0.0 if i in inert else draw(st.sampled_from([-1.0, 1.0, -1.0, 1.0, 0.0])) * gscale * draw(grid(0.05, 2.0, 39)) * draw(st.sampled_from([1.0, 1.0, 30.0]))
+                x2.append(xi); g2.append(gi)
+            again.append({"x": x2, "g": g2})
+    if again:
+        out["again"] = again
     ku = draw(st.sampled_from([0, 0, 0, -9, -6, -3, 3, 6]))
     if ku:
         # the same instance in other units: lengths * xs, gradients * fs/xs
@@ -242,6 +296,9 @@ def case(draw):
         out["g"] = [v * gs_ for v in g]
         out["Y"] = [[v * gs_ for v in y_] for y_ in Y]
         out["units"] = ku
+        for a in out.get("again", []):
+            a["x"] = [v * xs_ for v in a["x"]]
+            a["g"] = [v * gs_ for v in a["g"]]
     return out
 
 
@@ -345,8 +402,14 @@ def intercepted_body(pspec, stats):
 def run_spec(draw):
     from vf.specs import CONVEX_FAMILIES, problem_spec
 
-    p = draw(problem_spec(families=CONVEX_FAMILIES, n_max=8, kappa_max_exp=3.0, units=True))
-    cfg = {"maxcor": draw(st.integers(1, 8)), "maxiter": draw(st.integers(1, 25)), "maxfun": 200, "maxls": 20, "ftol": 0.0, "gtol": 0.0}
+    # non-convex families and a large user eps_SY make the solver reject pairs, i.e. call both routines again with the very
+    # same matrices object at the next iterate (usually with another free set)
+    fams = tuple(CONVEX_FAMILIES) * 2 + ("sines", "rosenbrock", "padded")
+    p = draw(problem_spec(families=fams, n_max=8, kappa_max_exp=3.0, units=True))
+    cfg = {"maxcor": draw(st.integers(1, 8)), "maxiter": draw(st.integers(1, 25)), "maxfun": 200, "maxls": draw(st.sampled_from([20, 20, 1, 2])), "ftol": 0.0, "gtol": 0.0}
+    k = draw(st.sampled_from([None, None, 0.05, 0.3]))
+    if k is not None:
+        cfg["eps_SY"] = k
     return {"problem": p, "cfg": cfg}
 
 
